@@ -36,7 +36,7 @@ from .values import (
 CONTRACTS = {}
 LEMMAS = {}
 GHOST_IMPL = {}  # name -> Python implementation (spec function) used by RunCtx.ghost
-NONNEG_GHOSTS = {"OCCN"}
+NONNEG_GHOSTS = {"OCCN", "AVN"}
 
 
 def _force(x):
@@ -219,26 +219,45 @@ class SymCtx:
         return IntV(f["cnt"](Z(k) - f["lo"]))
 
     def ghost(self, name, *args):
-        """Value of an uninterpreted SPEC function at these arguments: one fresh integer per
-        (name, argument identities) and verification run - i.e. the spec function is a function."""
+        """Value of an uninterpreted SPEC function at these arguments.  Object arguments
+        (permutations, mesh patterns, opaque values) select the function symbol by identity,
+        integer arguments are ordinary arguments of that symbol - so the value under a binder is
+        a function of the bound variable.  The same (name, objects) always gives the same symbol:
+        the spec function is a function."""
         def ident(a):
             if isinstance(a, SeqV):
-                return ("seq", a.meta.get("fun").get_id() if a.meta.get("fun") is not None else id(a))
+                f_ = a.meta.get("fun")
+                return ("seq", f_.get_id() if f_ is not None else id(a))
+            if isinstance(a, ListV):
+                return ("list", id(a))
             if isinstance(a, ObjV):
-                return ("obj", tuple(ident(v) for v in a.fields.values()))
+                return ("obj", a.cls, tuple(ident(v) for v in a.fields.values()))
             if isinstance(a, SetV):
-                return ("set", getattr(a, "fun", None).get_id() if getattr(a, "fun", None) is not None else id(a))
-            if isinstance(a, IntV):
-                return ("int", a.t.get_id())
+                f_ = getattr(a, "fun", None)
+                return ("set", f_.get_id() if f_ is not None else id(a))
+            if isinstance(a, TupV):
+                return ("tup", tuple(ident(v) for v in a.items))
+            if isinstance(a, NoneV) or a is None:
+                return ("none",)
             return ("py", repr(a))
 
-        key = (name,) + tuple(ident(a) for a in args)
+        ints = [a for a in args if isinstance(a, (IntV, int)) and not isinstance(a, bool)]
+        objs = [a for a in args if not (isinstance(a, (IntV, int)) and not isinstance(a, bool))]
+        key = (name, len(ints)) + tuple(ident(a) for a in objs)
         cache = self.engine.ghosts
         if key not in cache:
-            cache[key] = IntV(fresh("ghost_" + name))
-            if name in NONNEG_GHOSTS:  # the spec function is a count
-                self.engine.global_axioms.append(cache[key].t >= 0)
-        return cache[key]
+            sorts = [z3.IntSort()] * (len(ints) + 1)
+            from .values import fresh_fun
+
+            cache[key] = fresh_fun("ghost_" + name, *sorts) if ints else IntV(fresh("ghost_" + name))
+            if name in NONNEG_GHOSTS:
+                if ints:
+                    xs = [fresh("gx") for _ in ints]
+                    self.engine.global_axioms.append(z3.ForAll(xs, cache[key](*xs) >= 0, patterns=[cache[key](*xs)]))
+                else:
+                    self.engine.global_axioms.append(cache[key].t >= 0)
+        g = cache[key]
+        return IntV(g(*[Z(a) for a in ints])) if ints else g
 
     def is_perm(self, p):
         """Bijection of range(n), stated with the ghost two-sided inverse carried by
